@@ -39,6 +39,8 @@ def get(v, path):
 
 
 def holds(cond, observed):
+    if 'all_of' in cond:        # conjunction of conditions (inside defect_when_any)
+        return all(holds(c, observed) for c in cond['all_of'])
     vals = [o['value'] for o in observed if o.get('label') == cond['label']]
     if not vals:
         return False
